@@ -183,7 +183,9 @@ def body(ctx, case):
             dout_ = d2v if case["prop"] in ("angular", "two") else lz / (N_ * case["d1"])
             mm = dout_ / case["d1"]
             phimax = math.pi / lz * (N_ * N_ / 2.0) * (case["d1"] ** 2 * (1 + abs(1 - mm)) + dout_ ** 2 * (1 + abs(mm - 1) / mm)) + math.pi * lz / max(mm, 1e-300) / (2 * case["d1"] ** 2)
-            tol1 = 1e-12 + 256 * 2.3e-16 * phimax
+            if case["prop"] == "two" and mm != 1.0:
+                phimax *= 1.0 + 1.0 / abs(1.0 - mm)          # the intermediate plane lies at z / (1 - m)
+            tol1 = 1e-12 + 1e4 * 2.3e-16 * phimax
             if tol1 > 1e-6:
                 ctx.classes["one_element_array_not_compared_phases_too_large"] += 1
                 continue
